@@ -199,3 +199,17 @@ prop("C08",
      quick=dict(shards=2, timeout=400), thorough=dict(shards=16, timeout=1500), crash_is_violation=True,
      assumptions=COMMON + ["traffic patterns are requested at instants in up/down states only (slow/hang sleep by design)",
                            "upload bodies with declared box sizes above 16 MiB are not generated (allocation from a 4-byte field, see DESIGN)"])
+
+prop("C17",
+     rule="rapid draws a channel of 1-4 tracks (master video, second video, audio, wvtt text rescaled to 1000 Hz), segment duration 1/2/3.84 s, "
+          "timeShiftBufferDepth 4..300 s (windows smaller and larger than the run), startNr 0/1, Streams() or per-segment URLs, 1-12 segments "
+          "per track in order / with gaps / with duplicates / shuffled / with one late track, merged into one interleaving by drawn choices; "
+          "optionally a catch-up suffix of window+5 fresh consecutive numbers on every track. After every upload the hook VerifQuiesce gives a "
+          "defined observation point and the invariant is evaluated: accepted upload stored under track/<seq> with the uploaded content "
+          "(text: rescaled time), MPD file a complete document, same contiguous range in every adaptation set, every listed number stored "
+          "for every track with equal (t,d), every track represented, newest listed number never decreases, buffers/counters/storage within "
+          "the window implied by tsbd, and after the catch-up the newest listed number is the last one. The thorough tier adds all 70 "
+          "interleavings of 2 tracks x 4 segments. Non-trivial = a schedule where two tracks are >= 2 segments apart, or with a gap/duplicate.",
+     quick=dict(shards=2, timeout=400), thorough=dict(shards=16, timeout=1500), crash_is_violation=True,
+     assumptions=COMMON + ["uploads are unshifted (sequence number = decode time / duration); the MediaLive-style renumbering path is not generated",
+                           "the receiver's channel goroutine is observed through the build-tag hook verif_hooks.go (VerifQuiesce, VerifChannelState)"])
